@@ -14,5 +14,9 @@ CHECK = {
         unit("leases-namespaces", "vault", ["vault/c05ns_test.go"], "^TestVerif_C05_LeasesNamespaces$",
              quick={"checks": 60, "shards": 1, "cap": 900, "steps": 25},
              thorough={"checks": 300, "shards": 16, "cap": 3000, "steps": 40}),
+        unit("schedules", "vault", ["vault/c05_test.go", "vault/c05sched_test.go"], "^TestVerif_C05_Schedules$",
+             quick={"checks": 150, "shards": 1, "cap": 900},
+             thorough={"checks": 1000, "shards": 16, "cap": 3000},
+             flaky_is_violation=True),
     ],
 }
